@@ -365,5 +365,123 @@ class CliOnlyBinary(Stream):
         return []
 
 
+class IndexRequiresPython(Stream):
+    """"installable on the running interpreter" as an index states it: a project page whose files carry
+    requires-python declarations (the forms C14 lists, many of them bounds inside the running interpreter's own minor
+    series, with two and three components); the real PyPIRepository answers a request; the reference for what a
+    declaration admits is packaging's SpecifierSet on the interpreter's full version"""
+    name = "index-requires-python"
+    quick_n = 200
+    thorough_n = 8000
+    batch = 50
+
+    def setup(self):
+        import tempfile
+        self.tmp = tempfile.mkdtemp(prefix="rvc03rp")
+
+    def teardown(self):
+        import shutil
+        shutil.rmtree(getattr(self, "tmp", ""), ignore_errors=True)
+
+    def generate(self, rng):
+        import sys
+        from rv.props.c14 import gen_rp
+        M, m, u = sys.version_info[:3]
+
+        def near():
+            comps = rng.choice([[M, m, u], [M, m, u + 1], [M, m, max(u - 1, 0)], [M, m, 0], [M, m], [M, m + 1], [M, m - 1], [M, m + 1, 0], [M]])
+            op = rng.choice([">=", ">=", "<", "<=", ">", "!=", "=="])
+            # only the forms whose meaning does not depend on how many components are compared (C14's list):
+            # >= and < with any precision, the others with full precision or as wildcards
+            if op in ("==", "!=") and len(comps) < 3:
+                return op + ".".join(map(str, comps)) + ".*"
+            if op in (">", "<=") and len(comps) < 3:
+                comps = (comps + [0, 0])[:3]
+            return op + ".".join(map(str, comps))
+        files = []
+        for v in rng.sample(["0.9", "1.0", "1.5", "2.0", "2.1", "3.0"], rng.randint(1, 4)):
+            k = rng.random()
+            if k < 0.25:
+                rp = None
+            elif k < 0.75:
+                rp = ", ".join(near() for _ in range(rng.choice([1, 1, 2])))
+            else:
+                g = gen_rp(rng)
+                while g["kind"] != "listed":
+                    g = gen_rp(rng)
+                rp = g["text"]
+            files.append({"version": v, "rp": rp, "attr": rng.choice(["data-requires-python", "data-requires-python", "metadata-requires-python"])})
+        return {"files": files, "spec": rng.choice(["", "", "", "<3", ">=1.0"])}
+
+    def impl(self, case):
+        import html
+        import os
+        import shutil
+        from rv import backends as B
+        from rv.core import digest
+        from req_compile.repos.pypi import PyPIRepository
+        from req_compile.errors import NoCandidateException
+        from req_compile.utils import parse_requirement
+        d = os.path.join(self.tmp, digest(case))
+        os.makedirs(d, exist_ok=True)
+        files, attrs = {}, {}
+        for f in case["files"]:
+            fn = B.wheel_name("foo", f["version"])
+            files[fn] = B.wheel_bytes("foo", f["version"])
+            if f["rp"] is not None:
+                attrs[fn] = '%s="%s"' % (f["attr"], html.escape(f["rp"], quote=True))
+        idx = B.FakeIndex("http://idx.example/simple", {"foo": files}, attrs=attrs)
+        B.clear_page_cache()
+        repo = PyPIRepository("http://idx.example/simple", d)
+        repo.session = B.FakeSession([idx])
+        try:
+            dist, _ = repo.get_dist(parse_requirement("foo" + case["spec"]))
+            out = {"version": str(dist.version)}
+        except NoCandidateException:
+            out = {"version": None}
+        except Exception as ex:
+            out = {"error": type(ex).__name__ + ": " + str(ex)[:100]}
+        shutil.rmtree(d, ignore_errors=True)
+        return out
+
+    def _expected(self, case):
+        import sys
+        from packaging.specifiers import SpecifierSet
+        from packaging.version import Version
+        full = "%d.%d.%d" % sys.version_info[:3]
+        spec = SpecifierSet(case["spec"])
+        ok = [f["version"] for f in case["files"]
+              if (f["rp"] is None or SpecifierSet(f["rp"].strip()).contains(full, prereleases=True)) and spec.contains(f["version"])]
+        return max(ok, key=Version) if ok else None
+
+    def flags(self, case, r):
+        fl = []
+        if any(f["rp"] and len(f["rp"].split(",")[0].split(".")) == 3 and not f["rp"].endswith("*") for f in case["files"]):
+            fl.append("three-component-bound")
+        want = self._expected(case)
+        if want is None:
+            fl.append("nothing-installable")
+        elif want != max((f["version"] for f in case["files"]), key=lambda v: [int(x) for x in v.split(".")]):
+            fl.append("newest-file-not-installable-here")
+        return fl
+
+    def oracle(self, case, r):
+        if "error" in r:
+            return [("C03/index-request-raises", r)]
+        want = self._expected(case)
+        if r["version"] != want:
+            sym = "uninstallable-file-chosen" if want is None or (r["version"] is not None and
+                                                                  [int(x) for x in r["version"].split(".")] > [int(x) for x in want.split(".")]) else "installable-file-passed-over"
+            return [("C03/index-%s" % sym, {"chosen": r["version"], "newest_installable": want, "files": case["files"]})]
+        return []
+
+    def shrink(self, case):
+        for i in range(len(case["files"])):
+            if len(case["files"]) > 1:
+                yield dict(case, files=case["files"][:i] + case["files"][i + 1:])
+        if case["spec"]:
+            yield dict(case, spec="")
+
+
 def streams():
-    return [SelectStream(), CliOnlyBinary()]
+    return [SelectStream(), CliOnlyBinary(), IndexRequiresPython()]
